@@ -53,8 +53,19 @@ BestLawsHold(r, lb) ==
              B == BestSetL(r.in.p, S, lb)
          IN IF B = {} THEN r.out.ab = <<>> ELSE Len(r.out.ab) = 1 /\ r.out.ab[1] \in B
 
+\* what C06 says whatever the versions are worth (digit runs beyond 18 digits saturate in the
+\* code and are outside C01's domain): the argument order is irrelevant, the result is a matching
+\* candidate, and there is one exactly when some candidate matches
+BestLawsAnyVersion(r) ==
+    r.out.ok = "T" =>
+      /\ r.out.ab = r.out.ba
+      /\ (r.out.ab = <<>>) = (r.out.ma = "F" /\ r.out.mb = "F")
+      /\ r.out.ab # <<>> => \/ (r.out.ma = "T" /\ r.out.ab[1] = r.in.a)
+                             \/ (r.out.mb = "T" /\ r.out.ab[1] = r.in.b)
 BestVerdict(r) ==
     IF ~Shape(r.out, {"ok"}) THEN "bad"
+    ELSE IF r.out.ok = "T" /\ ~Shape(r.out, {"ab", "ba", "ma", "mb"}) THEN "bad"
+    ELSE IF ~BestLawsAnyVersion(r) THEN "bad"
     ELSE IF ~Judged(r.in.p) \/ ~InDomainNames(r.in.p, <<r.in.a, r.in.b>>) THEN "ok"
     ELSE IF r.out = BestExpected(r, 0) /\ BestLawsHold(r, 0) THEN "ok"
     ELSE IF r.out = BestExpected(r, 96) /\ BestLawsHold(r, 96) THEN "KF1"
